@@ -36,6 +36,8 @@ pub fn std_res_spec() -> Vec<ResSpec> {
         ResSpec { name: "tpl", aliases: &[], mime: None, content_b64: b64("tpl({{1}})"), permission: 0, redirectable_kind: false },
         ResSpec { name: "bin", aliases: &[], mime: Some("application/octet-stream"), content_b64: "//4A".to_string(), permission: 0, redirectable_kind: true },
         ResSpec { name: "vid", aliases: &[], mime: Some("video/mp4"), content_b64: "AAH/gA==".to_string(), permission: 0, redirectable_kind: true },
+        // (a first `corrupt`, a gif whose content is not base64, is refused together with its alias)
+        ResSpec { name: "corrupt", aliases: &[], mime: Some("text/plain"), content_b64: b64("ok"), permission: 0, redirectable_kind: true },
         // (the store is fed four more resources - `bad`, a first `bad2`, `a-alias`, `bad3` - whose
         // aliases or names collide with a loaded identifier: they are not loaded and leave nothing behind)
         ResSpec { name: "s1x", aliases: &[], mime: Some("text/plain"), content_b64: b64("s1x"), permission: 0, redirectable_kind: true },
